@@ -6,10 +6,40 @@ THEOREMS = []
 FACETS = [("route", [], "route")]
 RULE = "same corpus as C03 (random well-formed template sets x methods x base forms x typed path parameters x cors x single-scheme security; enumerated + template-directed + near-miss request paths, random handler/middleware/authenticator configuration); non-trivial = not answered by the plain not-found path; distinct by (package, method, path, projected observation)"
 
-EXPLANATION = "every ServeHTTP and every Parse() runs under recover; a counting ResponseWriter records WriteHeader calls; the run requires no panic and exactly one response for every request of the corpus, including base-path near-misses, truncated / doubled-slash paths, paths not starting with '/', nil and unaccepting authenticators"
+EXPLANATION = "every ServeHTTP and every Parse() runs under recover; a counting ResponseWriter records WriteHeader calls; the run requires no panic and exactly one response for every request of the corpus, including base-path near-misses, request-body documents of the JSON corpus (valid and single-fault) decoded by the generated UnmarshalJSON, truncated / doubled-slash paths, paths not starting with '/', nil and unaccepting authenticators"
 ASSUMPTIONS = ['handlers installed for every operation; user handlers return well-formed response values', 'panics inside net/http or encoding/json internals are outside the model']
 
 
+def scan_body_decoding(ctx):
+    """request-body decoding is part of Parse(): every document of the JSON corpus (valid, single-fault) through the generated UnmarshalJSON under recover"""
+    from . import jsonfam
+    res = jsonfam.run(ctx, "C14")
+    n = p = 0
+    if res:
+        rows, gens, _ = res
+        seen = set()
+        for r in rows:
+            if r["op"] != "jsondec":
+                continue
+            n += 1
+            if "PANIC" in r["impl"]:
+                p += 1
+                key = (r["id"].split("#")[0], r["type"])
+                if key in seen:
+                    continue
+                seen.add(key)
+                m = r["impl"].split("PANIC:")[-1].split(" ")[0]
+                try:
+                    m = bytes.fromhex(m).decode("utf-8", "replace")
+                except ValueError:
+                    pass
+                ctx.violations.append({"kind": "decoding a JSON document into a generated type panicked (this is what Parse() does with a request body)",
+                                       "case": r["id"], "type": r["type"], "panic": m[:600], "document(J form)": r["case"][4] if len(r["case"]) > 4 else None,
+                                       "spec": jsonfam.spec_of(gens, r["id"])})
+    ctx.extra_cov = {"body_decoding": {"documents_decoded_under_recover": n, "panics": p}}
+
+
 def check(ctx):
+    scan_body_decoding(ctx)
     return servefam.check_prop(ctx, "C14", ["GoagModel.Props.C14"], THEOREMS, FACETS, TRUSTED, rule=RULE,
                                explanation=EXPLANATION, assumptions=ASSUMPTIONS, level="other")
